@@ -257,7 +257,6 @@ func C11ErrClass(err error) string {
 	return "other"
 }
 
-
 // C11ClientMessages returns registration messages as a client builds them: a C2SWrapper with the
 // shared secret and a ClientToStation carrying the transport's parameters as the client transports
 // return them (GetParams), for every transport x {full type URL, no type URL (DNS registrar)}, plus
@@ -393,4 +392,3 @@ func C11MustMarshal(w *pb.C2SWrapper) []byte {
 	}
 	return b
 }
-
